@@ -357,6 +357,9 @@ func ToVal(t *SType, l *LVal) val.Value {
 			out[i], _ = strconv.ParseUint(s, 10, 64)
 		}
 		return val.UInt64List(out)
+	case "binary":
+		// the library keeps a list of binaries as the base64 text of every item
+		return val.StringList(append([]string{}, l.V...))
 	}
 	panic("ToVal: unknown list type " + t.Base)
 }
